@@ -26,10 +26,16 @@ MODES = {
     "TASK": dict(mode="TASK", keys=()),
     "ARGUMENTS": dict(mode="ARGUMENTS", keys=()),
     "KEYS": dict(mode="KEYS", keys=("a",)),
+    # the two options configured differently on one task: registration by key, running by all arguments (and the
+    # reverse, thorough tier): the running check must still find its peers (seed c06e)
+    "ARGUMENTS+regKEYS": dict(mode="ARGUMENTS", keys=("a",), reg="KEYS"),
+    "KEYS+regARGUMENTS": dict(mode="KEYS", keys=("a",), reg="ARGUMENTS"),
 }
+THOROUGH_ONLY_MODES = ("KEYS+regARGUMENTS",)
 
 
 def key_of(mode: str, a: int, b: int) -> Any:
+    mode = MODES[mode]["mode"]
     if mode == "TASK":
         return ()
     if mode == "ARGUMENTS":
@@ -40,9 +46,12 @@ def key_of(mode: str, a: int, b: int) -> Any:
 def task_options(mode: str, reroute: bool, retries: int = 2) -> dict:
     from pynenc.conf.config_task import ConcurrencyControlType as CC
 
-    opts: dict = dict(running_concurrency=CC[mode], reroute_on_concurrency_control=reroute, max_retries=retries)
-    if mode == "KEYS":
-        opts["key_arguments"] = ("a",)
+    m = MODES[mode]
+    opts: dict = dict(running_concurrency=CC[m["mode"]], reroute_on_concurrency_control=reroute, max_retries=retries)
+    if m["keys"]:
+        opts["key_arguments"] = m["keys"]
+    if m.get("reg"):
+        opts["registration_concurrency"] = CC[m["reg"]]
     return opts
 
 
@@ -580,13 +589,14 @@ def build(desc: dict) -> Any:
 def run(ctx: Ctx) -> None:
     depth = 5 if ctx.thorough else 4
     items = [(m, rr, seed, (depth if seed == "empty" else depth - 2), ctx.thorough)
-             for m in MODES for rr in (False, True) for seed in SEEDS]
+             for m in MODES if (ctx.thorough or m not in THOROUGH_ONLY_MODES)
+             for rr in (False, True) for seed in SEEDS]
     if not getattr(ctx, "only", None) or "hist" in ctx.only:
         for part in par.pmap(_hist_unit, items):
             ctx.merge(part)
     ds = []
     for backend in env.BACKENDS:
-        for mode in MODES:
+        for mode in ("TASK", "ARGUMENTS", "KEYS"):
             for rr in (False, True):
                 for subs in ("same", "diff", "samekey", "held"):
                     if mode == "ARGUMENTS" and subs == "samekey":
@@ -607,7 +617,7 @@ def run(ctx: Ctx) -> None:
         ds = [d for d in ds if ctx.only in e1.desc_key(d)]
     e1.explore_all(ctx, MOD, ds, lambda d: d["bound"])
     ctx.extra["seed_histories"] = {k: len(v) for k, v in SEEDS.items()}
-    ctx.rule = (f"histories: per (mode, reroute option) BFS to depth {depth} from the empty history and to depth "
+    ctx.rule = (f"histories: per (mode incl. tasks whose registration option uses a different key than the running option, reroute option) BFS to depth {depth} from the empty history and to depth "
                 f"{depth - 2} from {len(SEEDS) - 1} seeded non-initial states (extra.seed_histories) over single submit / batch submit / poll(r) / "
                 "start(r) / finish / fail-retriable / kill-reroute with parked task bodies on both backends (results and "
                 "read-outs compared between backends, invariant and poll post-conditions evaluated on the real state); "
